@@ -84,6 +84,30 @@ def clearing_blocks(b):
             a = b.term_of_operand(t["args"][0])
             if any(x[0] == "field" and x[2] == "data" for x in subterms(a)):
                 out.append(bi)
+    # the same clearing written in place (the helper inlined): `data[split_offset(len).0] &= low_set(split_offset(len).1)`, skipped
+    # exactly when the width is 0.  The block that computes the split decides both ways, so it is the point every path must pass;
+    # it counts only if the store it leads to has the helper's guard (width != 0 and nothing stricter).
+    if getattr(b, "facts", None) is not None and is_raw_vector_fn(b.facts, b.name):
+        from guards import fact_nonzero, fact_at_least
+        for bi, si, st in b.stmts():
+            if st["s"] != "assign" or st["lhs"]["p"] != ["deref"]:
+                continue
+            for dbi, rv in b.stored_values(bi, st):
+                if rv["r"] != "bin" or rv["op"] != "BitAnd":
+                    continue
+                for side in ("a", "b"):
+                    env = {}
+                    if not m(Call("bits::low_set", Bind("w")), b.term_of_operand(rv[side]), env):
+                        continue
+                    w = env["w"]
+                    if not (core(w)[0] == "field" and core(core(w)[1])[0] == "call" and core(core(w)[1])[1] == "bits::split_offset"):
+                        continue
+                    fs = facts_at(b, dbi)
+                    if not (fact_nonzero(fs, w) and not fact_at_least(fs, w, 2)):
+                        continue
+                    for ci, t in b.calls():
+                        if callee_name(t) == "bits::split_offset" and b.dominates(ci, dbi):
+                            out.append(ci)
     return out
 
 
